@@ -14,7 +14,9 @@ RULE = (
     "required/source/element changed or dropped, element class changed, class renamed, composition "
     "reordered), or the tree vs parse_element(its schema); x 6-10 values aimed at both schemas; "
     "checks: a == a, (a == b) == (b == a), independent builds equal, and a == b implies same verdict "
-    "for every value and json_eq(alpha(serialize_json(a)), alpha(serialize_json(b))); non-trivial = "
+    "for every value and json_eq(alpha(serialize_json(a)), alpha(serialize_json(b))); for root-keyword "
+    "mutants additionally compare -> reassign the differing keywords on a -> compare again (a must now "
+    "equal b, and relate to a fresh build of its old recipe as b does); non-trivial = "
     "pair that compares equal through two distinct builds, or a mutant pair; distinct = canon(case)"
 )
 ASSUMPTIONS = [
@@ -123,6 +125,37 @@ def predicate(case, stats):
             if not json_eq(xa, xb):
                 fails.append({"sub": "json", "kind": "equal-but-different-schema",
                               "detail": [canon(xa)[:600], canon(xb)[:600]], "mutation": case.get("mutation")})
+    # compare -> reconfigure -> compare: equality must follow the current configuration
+    if case["mode"] == "mutant" and not fails:
+        idx_a, idx_b = R.index(case["a"]), R.index(case["b"])
+        root_a, root_b = case["a"], case["b"]
+        same_shape = (root_a.get("kind") == root_b.get("kind") and root_a.get("kind") not in ("Object", "Nothing")
+                      and {k: v for k, v in root_a.items() if k != "kw"} == {k: v for k, v in root_b.items() if k != "kw"}
+                      and root_a.get("kw") != root_b.get("kw"))
+        if same_shape:
+            from statham.schema.constants import NotPassed as _NP
+            import copy as _copy
+
+            kw_a, kw_b = root_a.get("kw", {}), root_b.get("kw", {})
+            for k in set(kw_a) | set(kw_b):
+                if k in kw_b:
+                    if kw_a.get(k, "<absent>") != kw_b[k] or type(kw_a.get(k)) is not type(kw_b[k]):
+                        setattr(a, k, _copy.deepcopy(kw_b[k]))
+                else:
+                    default = False if k == "uniqueItems" else _NP()
+                    setattr(a, k, default)
+            try:
+                now = (a == b) and (b == a)
+            except Exception as exc:  # noqa: BLE001
+                now = False
+            if not now:
+                fails.append({"sub": "eq", "kind": "stale-equality-after-reconfiguration",
+                              "mutation": case.get("mutation"), "detail": [repr(a)[:300], repr(b)[:300]]})
+            a2 = R.build(case["a"])
+            if bool(a2 == a) != bool(ab) or bool(a == a2) != bool(ab):
+                fails.append({"sub": "eq", "kind": "stale-inequality-after-reconfiguration",
+                              "mutation": case.get("mutation")})
+            stats.classes["compare-reconfigure-compare"] += 1
     classes = ["mode:" + case["mode"], "equal" if equal else "unequal"]
     if case.get("mutation"):
         classes.append("mut:" + case["mutation"].split(":")[0] + (":equal" if equal else ""))
